@@ -57,7 +57,7 @@ def _strategy():
             if fate == "absent":
                 op["max_timeout"] = draw(st.sampled_from([0.1, 0.5, 1, 2]))
             if fate == "wrong_key":
-                op["wrong"] = draw(st.sampled_from(["xor1", "xor_hi", "xor_top", "zero", "ffff", "other"]))
+                op["wrong"] = draw(st.sampled_from(["xor1", "xor_hi", "xor_top", "zero", "ffff", "other", "seven"]))
             ops.append(op)
         # an operation that follows within a millisecond must not be one for which the harness takes the server off the bus:
         # the closing DM14 of the operation before may still be in flight (latency up to 5 ms) and would be lost with it
@@ -71,7 +71,8 @@ def _strategy():
                     o["fate"] = "respond_error"
                     o["error"], o["edcp"] = 0x1003, 7
         return {"seed_key": seed_key if not has_late else None,
-                "seeds": draw(st.lists(st.one_of(st.sampled_from([0x0000, 0xFFFF, 1, 0xFFFE, 0x8000, 0x00FF]), st.integers(0, 0xFFFF)), min_size=1, max_size=3)),
+                # ("key=7": the seed whose matching key equals the user level 0x0007 the request itself carries in the key field)
+                "seeds": draw(st.lists(st.one_of(st.sampled_from([0x0000, 0xFFFF, 1, 0xFFFE, 0x8000, 0x00FF, "key=7", "key=7"]), st.integers(0, 0xFFFF)), min_size=1, max_size=3)),
                 "ops": ops, "final_probe": True, "sas": draw(st.sampled_from([[0xF9, 0xD4, 0xA7], [0xF9, 0xD4, 0xA7], [0x00, 0xD4, 0xA7], [0x01, 0x00, 0xFD], [0xFD, 0x80, 0x00], [0x7F, 0xFD, 0x01]])),
                 # (server-side write times are not generated: the server's DM14 code updates its state after several of its writes;
                 # two such defects were repaired - D40 (client), D41 (server, write data) - the rest is a documented limit, DESIGN.md 8)
@@ -90,7 +91,7 @@ class C18:
                  "key-before-callback trace check, exception text/timing, recovery of the next well-formed operation")
     RULE = ("Hypothesis draws seed/key off or on (generated seeds and bijective key algorithm) and a history of 1..6 reads/writes "
             "(1..20 bytes, object sizes 1/2/4, same or different memory address) each with a fate: success / wrong key (one bit flipped in the low byte, the high byte or the top bit, "
-            "0x0000, 0xFFFF, another algorithm) / proceed callback refuses / respond(False, error, edcp) with every J1939Error value "
+            "0x0000, 0xFFFF, 0x0007 = the user level the request carries in the same field, another algorithm) / proceed callback refuses / respond(False, error, edcp) with every J1939Error value "
             "and undefined ones, edcp 6 or 7 / a scripted device that answers a read with 'proceed' and then with 'operation failed' + error indicator / an answer at the last moment (the caller's timeout of 0.1/0.5/1 s expires while the client writes its closing DM14 for 3 ms) / server absent with max_timeout in {0.1,0.5,1,2 s}; gaps 0.05..3.5 s; a final "
             "well-formed read always follows; non-trivial = a failure followed by an operation that must succeed; distinct = "
             "distinct histories")
@@ -135,8 +136,14 @@ class C18:
         if p.get("final_probe", True):
             ops = ops + [{"op": "read", "fate": "ok", "size": 1, "count": 5, "data_seed": 4242, "gap_after": 0.05, "addr_sel": 0, "raw": True}]
         sas = p.get("sas", [D.SA_C, D.SA_S, D.SA_I])
-        dw = D.Dm14World(dict(p, sa_c=sas[0], sa_s=sas[1], sa_i=sas[2]))
         right = D.key_fn(p["seed_key"]) if p["seed_key"] else None
+        if p["seed_key"]:
+            a_, b_ = p["seed_key"][0] | 1, p["seed_key"][1]
+            seed7 = ((0x0007 ^ b_) * pow(a_, -1, 1 << 16)) & 0xFFFF          # right(seed7) == 0x0007
+        else:
+            seed7 = 0xFFF8
+        p = dict(p, seeds=[seed7 if x == "key=7" else x for x in p["seeds"]])
+        dw = D.Dm14World(dict(p, sa_c=sas[0], sa_s=sas[1], sa_i=sas[2]))
         try:
             txs, plans, exp = [], [], []
             for ti, o in enumerate(ops):
@@ -189,6 +196,7 @@ class C18:
                     w_ = o.get("wrong", "xor1")
                     wrong = {"xor1": (lambda s: right(s) ^ 1), "xor_hi": (lambda s: right(s) ^ 0x100), "xor_top": (lambda s: right(s) ^ 0x8000), "zero": (lambda s: 0 if right(s) != 0 else 1),
                              "ffff": (lambda s: 0xFFFF if right(s) != 0xFFFF else 0xFFFE),
+                             "seven": (lambda s: 0x0007 if right(s) != 0x0007 else 0x0008),
                              "other": (lambda s: (right(s) + 0x1357) & 0xFFFF)}[w_]
                     dw.client.query.set_seed_key_algorithm(wrong)
                 if o["fate"] in ("absent", "fail_after_proceed"):
